@@ -3,6 +3,7 @@ package e4panic
 import (
 	"go/constant"
 	"go/token"
+	"go/types"
 	"strings"
 
 	"golang.org/x/tools/go/ssa"
@@ -282,34 +283,38 @@ func (a *Analysis) validOrMinus1(v ssa.Value, x ssa.Value, depth int) bool {
 
 // indexResultParam: f returns (on every path) slices.IndexFunc(param_i, …) → i, else -1.
 func (a *Analysis) indexResultParam(f *ssa.Function) int {
-	res := -1
-	for _, b := range f.Blocks {
-		for _, in := range b.Instrs {
-			ret, ok := in.(*ssa.Return)
-			if !ok || len(ret.Results) != 1 {
+	if a.idxResMemo == nil {
+		a.idxResMemo = map[*ssa.Function]int{}
+	}
+	if v, ok := a.idxResMemo[f]; ok {
+		return v
+	}
+	a.idxResMemo[f] = -1 // in progress: a recursive finder is not assumed to be one
+	if f.Signature.Results().Len() != 1 {
+		return -1
+	}
+	for pi, prm := range f.Params {
+		if _, isSlice := prm.Type().Underlying().(*types.Slice); !isSlice {
+			continue
+		}
+		rets, okAll := 0, true
+		for _, b := range f.Blocks {
+			ret, ok := b.Instrs[len(b.Instrs)-1].(*ssa.Return)
+			if !ok {
 				continue
 			}
-			call, ok := ret.Results[0].(*ssa.Call)
-			if !ok {
-				return -1
+			rets++
+			// -1, an index produced by ranging the parameter, slices.Index/IndexFunc on it, or another finder applied to it
+			if !a.validOrMinus1(ret.Results[0], prm, 1) {
+				okAll = false
 			}
-			name := calleeFullName(call.Common())
-			if name != "slices.IndexFunc" && name != "slices.Index" {
-				return -1
-			}
-			pi := -1
-			for i, prm := range f.Params {
-				if call.Common().Args[0] == ssa.Value(prm) {
-					pi = i
-				}
-			}
-			if pi < 0 || (res >= 0 && res != pi) {
-				return -1
-			}
-			res = pi
+		}
+		if rets > 0 && okAll {
+			a.idxResMemo[f] = pi
+			return pi
 		}
 	}
-	return res
+	return -1
 }
 
 // validIndex: v is a valid index of x at `at`.
